@@ -95,9 +95,10 @@ def run_tie2(prop, P, tier, rng, replay=None, facts=None):
                 why = spec['oracle'](ops, io, ctx) if 'oracle' in spec else None
                 kn = spec['known'](ops, io, mo, ctx) if 'known' in spec else None
                 if kn:
-                    for line, io2, mo2 in [kn]:
-                        if line and line not in known: known.append(line)
-                        io, mo = io2, mo2
+                    line, io2, mo2 = kn[0], kn[1], kn[2]
+                    if line and line not in known: known.append(line)
+                    io, mo = io2, mo2
+                    if why and len(kn) > 3 and why.startswith(kn[3]): why = None
                 if why:
                     scov['oracle_failures'] += 1
                     if nfail < 5:
@@ -457,3 +458,98 @@ PROPS['C08'] = conc_prop([{'unique'}, None, {'raw'}, {'union'}], with_uniq=True)
 PROPS['C09'] = conc_prop([{'unique'}, None, {'unique'}, {'raw'}], with_uniq=True)
 PROPS['C10'] = mech_prop([{'thin', 'with'}, {'thin'}, None, {'thin', 'with'}])
 PROPS['C15'] = mech_prop([{'uninit'}, None, {'uninit'}, {'unique'}])
+
+
+# ============================================================================
+# ptr stream (C11, C12)
+# ============================================================================
+def gen_ptr(tier, rng):
+    cases = []; n = 0
+    def add(h, t, f, ln):
+        nonlocal n
+        cases.append(('P%d' % n, [[h, t, f, ln]])); n += 1
+    lens = [0, 1, 2, 3, 7] if tier != 'thorough' else [0, 1, 2, 3, 5, 7, 17, 64]
+    for t in range(len(SHAPES)):
+        add(0, t, 0, 0); add(0, t, 2, 0)
+        for ln in lens: add(0, t, 1, ln)
+        for h in HIDX:
+            for ln in lens[:4] if tier != 'thorough' else lens: add(h, t, 3, ln)
+            add(h, t, 4, 0); add(h, t, 5, 0); add(h, t, 6, 2); add(h, t, 6, 0)
+    # malformed
+    add(2, 1, 0, 0); add(0, 40, 0, 0); add(0, 1, 9, 0); add(0, 1, 1, 100)
+    return cases
+
+def oracle_ptr(ops, io, ctx):
+    """C11/C12 stated directly on the implementation's answers (F3 is handled by known_ptr)"""
+    h, t, f, ln = ops[0]; o = io[0]
+    if o[0] != 0: return None
+    hs, hk = SHAPES[h] if h < len(SHAPES) else (0, 0); ts, tk = SHAPES[t] if t < len(SHAPES) else (0, 0)
+    if f == 0:
+        if o[2] != 1: return 'Arc::as_ptr differs from the address Deref yields'
+        if o[1] < 8 or o[1] % (2 ** tk) != 0: return 'value address offset %d is not >= 8 and aligned to %d' % (o[1], 2 ** tk)
+        if o[3] != o[1]: return 'into_raw (%d) differs from as_ptr (%d)' % (o[3], o[1])
+        if o[4] != 1: return 'from_raw(into_raw(a)) does not recover the same allocation, contents and count'
+        if o[5] != o[1] or o[6] != o[1]: return 'the bit pattern of OffsetArc/ArcBorrow (%d/%d) is not the value address (%d)' % (o[5], o[6], o[1])
+        if o[7] != 1: return 'clone_arc / from_raw_offset do not lead back to the same allocation'
+        if o[8] != 0: return 'heap_ptr is not the block start'
+        if o[9:16] != [8] * 7: return 'a handle type or its Option is not one word: %s' % o[9:16]
+        if o[16] != 1: return 'the address changed across clone/move'
+        if o[17] != 1: return 'the block was not released with the layout it was allocated with'
+    if f in (1, 2):
+        if o[1] < 8: return 'value address inside the count'
+        if o[-1] != 1: return 'the block was not released with its layout after the raw round trip'
+        if (f == 1 and (o[2] != 1 or o[3] != 1 or o[4:6] != [16, 16])) or (f == 2 and (o[2] != 1 or o[3:5] != [16, 16])):
+            return 'raw round trip of a slice / trait-object Arc failed or the handle is not two words: %s' % o
+    if f == 3:
+        if o[3] != 0 or o[5] != 1 or o[6:8] != [8, 8] or o[8] != 1: return 'ThinArc raw round trip / width / release failed: %s' % o
+        if o[1] != o[4]: return 'ThinArc::as_ptr and into_raw differ'
+        if o[1] != o[2]: return 'F3-class: ThinArc::as_ptr/into_raw yield offset %d but the value (what Deref yields) lives at offset %d' % (o[1], o[2])
+    if f in (4, 5):
+        exp = [1, 0, 1, 0] if f == 4 else [0, 1, 0, 1]
+        if o[1:5] != exp: return 'ArcUnion built by %s reports %s through is_first/is_second/as_first/as_second' % ('from_first' if f == 4 else 'from_second', o[1:5])
+        k = tk if f == 4 else hk
+        if o[5] < 8 or o[5] % (2 ** k) != 0: return 'ArcUnion::borrow yields offset %d, not the value address' % o[5]
+        if o[6] != 2 or o[8] != 1: return 'cloning/dropping the union moved the count to %d then %d (expected 2 then 1)' % (o[6], o[8])
+        if o[7] != 1: return 'the clone of the union is not the same allocation and variant'
+        if o[9] != 1: return 'dropping the union did not release the block with its layout'
+        if o[10:12] != [8, 8]: return 'ArcUnion or Option<ArcUnion> is not one word: %s' % o[10:12]
+    return None
+
+def known_ptr(ops, io, mo, ctx):
+    """F3: the ThinArc raw forms give the block start; mask exactly that and report it"""
+    h, t, f, ln = ops[0]; o = io[0]
+    if f == 3 and o[0] == 0 and len(o) >= 3 and o[1] == 0 and o[2] != 0:
+        line = 'KNOWN-FINDING: property=C11 F3 ThinArc::as_ptr/into_raw (and the arc-swap glue) return the block start, not the address of the value that Deref yields'
+        return (line if ctx.get('report_f3', True) else None, io, mo, 'F3-class')
+    return None
+
+PTR_STREAM = dict(stream='ptr', gen=gen_ptr, oracle=oracle_ptr, known=known_ptr,
+                  nontrivial=lambda ops, io: ops[0][2] != 0 or SHAPES[ops[0][1] % len(SHAPES)][1] > 3 or SHAPES[ops[0][1] % len(SHAPES)][0] % 8 != 0,
+                  rule='exhaustive over the matrix: 16 payload shapes x 8 header/second-type shapes x 7 forms (sized Arc with OffsetArc/ArcBorrow forms; slice; trait object; ThinArc; ArcUnion first / second; arc-swap glue) x slice lengths; observation = offsets relative to the allocator block, round-trip verdicts, handle and Option sizes, release layout; non-trivial = not a word-shaped sized payload; distinct = distinct case tuples',
+                  cfgs=dict(quick=[('cfg_default', 'debug'), ('cfg_default', 'release')],
+                            thorough=[('cfg_default', 'debug'), ('cfg_default', 'release'), ('cfg_nostd', 'release'), ('cfg_all', 'debug'), ('cfg_all', 'release')]))
+
+def c11_side(facts):
+    PT = facts.get('pointers') or {}; L = facts.get('layout') or {}
+    F = PT.get('forms', {})
+    out = [('%s_functions_unchanged' % g, bool(F.get(g)), 'differing: %s' % [d for d in PT.get('diffs', [])]) for g in ['arc_raw', 'offset', 'borrow', 'thin', 'swap']]
+    out.append(('offset_of_data_translated', L.get('ood') not in (None, 'OUnknown'), str(L.get('ood'))))
+    out.append(('from_raw_as_ptr_heap_ptr_forms', L.get('from_raw_form') == 'FRByteSubOffsetOfData' and L.get('as_ptr_form') == 'APAddrOfData' and L.get('heap_ptr_form') == 'HPBlockStart',
+                '%s %s %s' % (L.get('from_raw_form'), L.get('as_ptr_form'), L.get('heap_ptr_form'))))
+    return out
+
+def c12_side(facts):
+    PT = facts.get('pointers') or {}; U = PT.get('union', {})
+    out = [('union_bit_expressions_translated', all('Unknown' not in str(U.get(k)) for k in ['tag1', 'tag2', 'test_first', 'untag1', 'untag2']), str(U)),
+           ('borrow_arms_match_variants', bool(U.get('arms_ok')), ''),
+           ('union_functions_unchanged', bool(PT.get('forms', {}).get('union')) and bool(PT.get('forms', {}).get('borrow')), 'differing: %s' % PT.get('diffs'))]
+    return out
+
+PROPS['C11'] = dict(streams=[PTR_STREAM, LAYOUT_STREAM], side_obligations=c11_side,
+                    facts_view=lambda f: dict(ood=(f.get('layout') or {}).get('ood'), forms=(f.get('pointers') or {}).get('forms'), diffs=(f.get('pointers') or {}).get('diffs')),
+                    assumptions=['transparent-over-NonNull implies one word with a null niche: a rustc layout guarantee encoded as a definition and validated by the ptr stream (size_of, Option size_of)',
+                                 'rustc lays out repr(C) structs by extend+pad_to_align (validated by the layout and ptr streams)', '64-bit target'])
+PTR_STREAM_C12 = dict(PTR_STREAM); PTR_STREAM_C12['ctx'] = dict(report_f3=False)
+PROPS['C12'] = dict(streams=[PTR_STREAM_C12, mech_stream([{'union'}, None, {'union'}])], side_obligations=c12_side,
+                    facts_view=lambda f: (f.get('pointers') or {}).get('union'),
+                    assumptions=MECH_ASSUME + ['blocks from the global allocator are at least 8-aligned (the request always has alignment >= 8: C05)'])
